@@ -434,7 +434,9 @@ Fixpoint telab (p : prog) : option (rty * rir) :=
 Definition reported (p : prog) : option rty := option_map fst (telab p).
 Definition emitted (p : prog) : option rir := option_map snd (telab p).
 
-(* the guard of the partial theorem: no matrix-row lookup into a table whose COMPOUND key starts with an interval *)
+(* the guard of the partial theorem: a matrix-row lookup into an interval-keyed table (a) is not into a table whose
+   COMPOUND key starts with an interval and (b) uses a point of the type of the matrix's first row key field (the emitted
+   MatrixAnnotateRowsTable joins on the ROW KEY, whatever the index expression is) *)
 Fixpoint simple_interval_keys (p : prog) : bool :=
   match p with
   | PRange | PMRange => true
@@ -443,7 +445,15 @@ Fixpoint simple_interval_keys (p : prog) : bool :=
   | PMAnnotateRows p _ | PMAnnotateCols p _ | PMAnnotateEntries p _ | PMAnnotateGlobals p _
   | PMKeyRowsBy p _ | PMKeyColsBy p _ => simple_interval_keys p
   | PAnnotateIdx p r _ _ _ _ => simple_interval_keys p && simple_interval_keys r
-  | PMAnnotateRowsIv m r _ _ _ _ =>
+  | PMAnnotateRowsIv m r _ k _ _ =>
       simple_interval_keys m && simple_interval_keys r &&
-      match telab r with Some (RT (TT _ _ rkey), _) => (length rkey <=? 1)%nat | _ => true end
+      match telab m, telab r with
+      | Some (RM (MT gl _ _ row rk _), _), Some (RT (TT _ _ rkey), _) =>
+          (length rkey <=? 1)%nat &&
+          match key_types row rk with
+          | Some (t0 :: _) => match elab (mrow_env gl row) k with Some (tk, _) => ty_eqb tk t0 | None => false end
+          | _ => false
+          end
+      | _, _ => true
+      end
   end.
